@@ -276,3 +276,14 @@ Definition to_local_time_type (tz : timezone) (timestamp : Z) : tzres Z :=
     | Some u => TzOk u
     | None => TzPanic
     end.
+
+(* ---- offset.rs: Offset::Local.resolve() — the file system and the clock are parameters ----
+   file = None: /etc/localtime unreadable; now_ts: DateTime::now().timestamp() *)
+Definition resolve_local (file : option bytes) (now_ts : Z) : tzres Z :=
+  match file with
+  | None => TzOk 0
+  | Some bs => match from_tzif bs with
+               | TzOk tz => to_local_time_type tz now_ts
+               | TzErr => TzOk 0
+               | TzPanic => TzPanic end
+  end.
